@@ -221,11 +221,15 @@ def finish (cfg : Cfg) (s : State) : Except Err State := finishWith (optimiseAll
 
 /-! ### groups -/
 
-/-- `add_segment_group(group_id, neuro_lex_id)`: an existing group is kept as it is -/
+/-- `add_segment_group(group_id, neuro_lex_id)`: an existing group is kept as it is; otherwise
+    `morphology.add("SegmentGroup", id=…)`, which does not append an object equal to one already in the list (only
+    possible for a group without id: `get_segment_group` never finds those) -/
 def ensureGroup (s : State) (g : String) (nlx : Option String) : State :=
   match findGroup s.groups g with
   | some _ => s
-  | none => { s with groups := s.groups ++ [{ id := g, members := [], includes := [], nlx := nlx }] }
+  | none =>
+    if ({ id := g, members := [], includes := [], nlx := nlx } : Group) ∈ s.groups then s
+    else { s with groups := s.groups ++ [{ id := g, members := [], includes := [], nlx := nlx }] }
 
 def addMember (s : State) (g : String) (i : Nat) : State :=
   { s with groups := updGroup g (fun G => { G with members := G.members ++ [i] }) s.groups }
